@@ -207,6 +207,18 @@ func fitSegs(base []string, tmpl []seg, path []string) (fitKind, map[string]stri
 // separator of the segment, both as sent and after decoding, so that the decomposition is unique whichever
 // way it is carried out.
 func splitComposite(s seg, text string) (map[string]string, bool) {
+	// "{name}<literal>" (one placeholder, then a literal that ends the segment, e.g. "{name}.json"): the
+	// placeholder's text is everything in front of the literal that ends the segment, so the decomposition is
+	// unique even when the value itself contains the literal ("q1.json.json" -> "q1.json").
+	if len(s.Parts) == 2 && s.Parts[0].Name != "" && s.Parts[1].Name == "" && s.Parts[1].Lit != "" {
+		lit := s.Parts[1].Lit
+		dec := unescape(text)
+		if strings.HasSuffix(text, lit) && strings.HasSuffix(dec, lit) && len(text) > len(lit) && len(dec) > len(lit) &&
+			unescape(text[:len(text)-len(lit)]) == dec[:len(dec)-len(lit)] {
+			return map[string]string{s.Parts[0].Name: dec[:len(dec)-len(lit)]}, true
+		}
+		return nil, false
+	}
 	vals := map[string]string{}
 	seps := s.seps()
 	rest := text
